@@ -50,8 +50,4 @@ def c16Accessors : List (String × MemRel) := [
     at least 1-d; `outer` is always 2-d) -/
 def c16NeverZeroD : List String := ["concatenate", "stack", "block", "outer", "linalg.outer"]
 
-/-- handlers that wrap a possibly 0-d result as `unyt_array(res, …, bypass_validation=True)`
-    when `out=` is given — one known finding each (known_findings.d/C16.json) -/
-def exclC16Handlers : List String := ["around", "choose", "clip", "dot"]
-
 end Unyt.Ref
